@@ -294,17 +294,21 @@ def pRACase : P (RawInterface × SysState × Bool) := do
   let raw ← pRawInterface; let sys ← pSys; let fw ← P.bool
   pure (raw, sys, fw)
 
+/-- the system state as the source's `source_lla` plugin sees it (model) and as it should (oracles) -/
+def sysSrc (sys : SysState) : SysState := normSys Gen.Plugin.llaRequiresEthernet sys
+def sysDoc (sys : SysState) : SysState := normSys true sys
+
 /-- `ra1 <raw stanza> <sys> <fw> | …` (C01) -/
 def ra1 (c impl : List String) : Option Verdict := do
   let (raw, sys, fw) ← P.run pRACase c
   let i ← P.run pImplRA impl
-  let (ok, note) := Spec.C01.holds raw sys fw i.status i.ra
+  let (ok, note) := Spec.C01.holds raw (sysDoc sys) fw i.status i.ra
   let kinds := match i.ra with
     | some ra => (ra.options.map fun o => match o with
         | .pi .. => 0 | .ri .. => 1 | .rdnss .. => 2 | .dnssl .. => 3 | .mtu .. => 4 | .lla .. => 5
         | .captivePortal .. => 6 | .pref64 .. => 7).eraseDups.length
     | none => 0
-  pure { model := modelRAString raw sys fw false, oracle := ok, nontrivial := decide (kinds ≥ 2), note := note }
+  pure { model := modelRAString raw (sysSrc sys) fw false, oracle := ok, nontrivial := decide (kinds ≥ 2), note := note }
 
 /-- `ra3 … | … wire <decoded RA>` (C03) -/
 def ra3 (c impl : List String) : Option Verdict := do
@@ -321,15 +325,15 @@ def ra3 (c impl : List String) : Option Verdict := do
         | _ => false
     | none => false
   let wireKnown := i.wire == "wire" || i.wire == "marshal-err" || i.wire == "" 
-  pure { model := modelRAString raw sys fw true, oracle := ok, nontrivial := nt && clockSane, note := note,
+  pure { model := modelRAString raw (sysSrc sys) fw true, oracle := ok, nontrivial := nt && clockSane, note := note,
          agreeOverride := if clockSane then none else some (i.status != "ok" || wireKnown) }
 
 /-- `ra4 … | …` (C04, single-generation form) -/
 def ra4 (c impl : List String) : Option Verdict := do
   let (raw, sys, fw) ← P.run pRACase c
   let i ← P.run pImplRA impl
-  let (ok, note) := Spec.C04.holds raw sys fw i.status i.ra i.mis
-  pure { model := modelRAString raw sys fw false, oracle := ok,
+  let (ok, note) := Spec.C04.holds raw (sysDoc sys) fw i.status i.ra i.mis
+  pure { model := modelRAString raw (sysSrc sys) fw false, oracle := ok,
          nontrivial := i.status == "ok", note := note }
 
 end Driver.Config
